@@ -4,6 +4,6 @@ S=$1; P=$2; shift 2
 cd /repo && git diff --quiet || { echo "/repo not clean"; exit 2; }
 PATCH=/verif/seeded/$S/patch.diff; [ -f /verif/seeded/$S/patch_current.diff ] && PATCH=/verif/seeded/$S/patch_current.diff
 git apply $PATCH || { echo "patch does not apply (rebase it as patch_current.diff)"; git checkout HEAD -- .; exit 2; }
-cd /verif && ./check $P --tier quick "$@" > /tmp/seed_$S_$P.log 2>&1; RC=$?
+cd /verif && ./check $P --tier quick "$@" > /tmp/seed_${S}_${P}.log 2>&1; RC=$?
 cd /repo && git checkout -- . && git status --short | head -3
-echo "seed $S on $P: exit $RC"; grep -c "^VIOLATION" /tmp/seed_$S_$P.log; grep "^VIOLATION" -A1 /tmp/seed_$S_$P.log | head -6 | cut -c1-400; tail -1 /tmp/seed_$S_$P.log
+echo "seed $S on $P: exit $RC"; grep -c "^VIOLATION" /tmp/seed_${S}_${P}.log; grep "^VIOLATION" -A1 /tmp/seed_${S}_${P}.log | head -6 | cut -c1-400; tail -1 /tmp/seed_${S}_${P}.log
